@@ -21,7 +21,7 @@ import kernels as ref  # noqa: E402
 META = {
     "level": "other",
     "technique": "compiler-evaluated constants and wire signatures (typed HIR) compared with an independent reference of the published format; literal/shape rules on key derivation and tail handling",
-    "claim": "Decides equality with the published MPQ format for ~50 constants, the V1–V4 header layouts on both the write and the read side (width, order, field identity), the 16-byte hash/block entry layouts, the table key names, the position-adjusted key formula, whole-word-only encryption and plain-name key derivation. Does not run a second implementation or compare zlib/bzip2 payloads. Also: every loop serialising hash/block entry fields uses the format order and widths; the key position is seek position − archive offset; lookups stop only at never-used entries (truth table over the three entry kinds); name hashes iterate over bytes. Wave 5: every difference of two different header table positions sits under a comparison of the two (table order is not assumed); in zlib::decompress no path reaches a raw-deflate decoder without the zlib decoder having been tried unless its guard rejects all 128 legal RFC 1950 headers. Wave 6: readers decide \"sector is compressed\" against that sector's own decompression target; the file key is derived after the last write to the flags it reads. Wave 7: never-expands and the cipher-block-extent rule are armed here as well (shared with C03 / C01).",
+    "claim": "Decides equality with the published MPQ format for ~50 constants, the V1–V4 header layouts on both the write and the read side (width, order, field identity), the 16-byte hash/block entry layouts, the table key names, the position-adjusted key formula, whole-word-only encryption and plain-name key derivation. Does not run a second implementation or compare zlib/bzip2 payloads. Also: every loop serialising hash/block entry fields uses the format order and widths; the key position is seek position − archive offset; lookups stop only at never-used entries (truth table over the three entry kinds); name hashes iterate over bytes. Wave 5: every difference of two different header table positions sits under a comparison of the two (table order is not assumed); in zlib::decompress no path reaches a raw-deflate decoder without the zlib decoder having been tried unless its guard rejects all 128 legal RFC 1950 headers. Wave 6: readers decide \"sector is compressed\" against that sector's own decompression target; the file key is derived after the last write to the flags it reads. Wave 7: never-expands and the cipher-block-extent rule are armed here as well (shared with C03 / C01). Wave 8: every extent guard of the read paths accepts an extent that ends exactly at the end of its container (12 guards, truth table); no value is taken from a buffer after it was enciphered in place.",
     "note": "Reference = reference/kernels.py, written from the public format description (zezula.net / StormLib headers), not from the repo.",
     "assumptions": ["the published format subset: V1/V2 headers, classic tables, none/zlib/bzip2, plain and encrypted files"],
     "explanation": "wow_mpq constants (magics, FLAG_*, method bytes, hash types, empty markers), builder::write_header, header::MpqHeader::read_with_limits, HashEntry/BlockEntry readers and writers, hash_string(\"(hash table)\"/\"(block table)\", FILE_KEY) sites, calculate_file_key and the three reader derivations, the byte-level encrypt/decrypt wrappers.",
